@@ -102,6 +102,8 @@ func main() {
 				f.WriteAt([]byte("q"), 0)
 				f.Close()
 			}},
+			{"truncate a.toml to nothing", a, true, func() { os.Truncate(a, 0) }},
+			{"refill a.toml", a, true, func() { os.WriteFile(a, []byte("z = 4\n"), 0o644) }},
 			{"write b.txt", b, true, func() { os.WriteFile(b, []byte("new"), 0o644) }},
 			{"chmod a.toml", a, false, func() { os.Chmod(a, 0o600) }},
 			{"create c.toml (empty)", filepath.Join(d, "c.toml"), false, func() { f, _ := os.Create(filepath.Join(d, "c.toml")); f.Close() }},
